@@ -310,7 +310,7 @@ PROPS["C15"] = {
 }
 
 PROPS["C09"] = {
-    "claim": "for each variant of a corpus of derive(Command)/derive(CommandGroup) declarations (expanded by /repo's macros at every run: unit, struct and tuple variants; positional / option / flag fields; u8, i8, &str, bool; Option; default_value; default_value_t; explicit and generated short/long names incl. a non-ASCII short; value_name; renamed command; required and optional sub-commands; a group with a hidden member and a catch-all) and EVERY argument token buffer of <= 5 (quick) / 6 (thorough) well-formed bytes, the derived FromRaw::parse and a declaration interpreter agree on the outcome: the variant, every field value (strings by position), or the first offending item with its payload",
+    "claim": "for each variant of a corpus of derive(Command)/derive(CommandGroup) declarations (expanded by /repo's macros at every run: unit, struct and tuple variants; positional / option / flag fields; u8, i8, u16, char, &str, bool, Option<bool>; Option; default_value; default_value_t; explicit and generated short/long names incl. a non-ASCII short; value_name; renamed command; required and optional sub-commands; a group with a hidden member and a catch-all) and EVERY argument token buffer of <= 5 (quick) / 6 (thorough) well-formed bytes, the derived FromRaw::parse and a declaration interpreter agree on the outcome: the variant, every field value (strings by position), or the first offending item with its payload",
     "assumptions": [
         "the program quantifier (all declarations) is covered by a finite hand-written corpus only; the proc-macro itself is not executed symbolically",
         "assumed away (statement silent): an option name directly followed by another option, by `--` or by the end of the line; a value-taking option given twice",
@@ -327,6 +327,7 @@ PROPS["C09"] = {
                                  ("p2_opt", "optional sub-command")]] + [
     ] + [H("c09_derive::" + c, bounds="sub-command parsing on the concrete token list `%s` (parent variants: named with a flag, renamed tuple, optional)" % c[4:], timeout=900, mem=4)
          for c in ("p2c_base_exit", "p2c_base_flag_ping", "p2c_base_unknown", "p2c_base_missing", "p2c_base_bad_option", "p2c_base_sub_extra_arg", "p2c_tup_ping", "p2c_tup_missing", "p2c_opt_none", "p2c_opt_exit")] + [
+    ] + [H("c09_derive::p4_ty_n%d" % n, tier=("both" if n in (0, 4) else "thorough"), bounds="Option<char> option, Option<bool> flag, u16 option with default_value_t: every well-formed token buffer of exactly %d bytes" % n, timeout=2400, mem=8) for n in (0, 3, 4, 5)] + [
         H("c09_derive::c09_name_dispatch", bounds="every command name of <= 4 bytes against P1 and the group G", timeout=1200, mem=6),
         H("c09_derive::c09_twin", kind="twin"),
     ],
